@@ -26,6 +26,12 @@ class FileHandler(BaseHandler):
             self.entry.populatefromfs(self.getselector(), self.statresult, vfs=self.vfs)
         return self.entry
 
+    def prepare(self):
+        # Let the protocol detect an unreadable file (permissions, or gone
+        # since the stat) before it commits to a success status.
+        with self.vfs.open(self.getselector(), "rb"):
+            pass
+
     def write(self, wfile):
         self.vfs.copyto(self.getselector(), wfile)
 
